@@ -159,11 +159,18 @@ func c16GraffitiFile(kind string) string {
 		return strings.Repeat("long graffiti ", 20)
 	case "client":
 		return "{{CLIENT}}\nvouch {{CLIENT}} {{SLOT}}\n"
+	case "nul":
+		return "\x00\x00\x00\x00\n\x00\n"
+	case "unterminated":
+		return "{{SLOT\n{{CLIENT\nVALIDATORINDEX}}\n"
+	case "utf8":
+		return strings.Repeat("\u00e9\u4e16\U0001f600", 6) + "\n"
 	}
 	panic("c16 harness: unknown graffiti file kind " + kind)
 }
 
-func c16RunGraffiti(ctx context.Context, sh map[string]string) c16Res {
+// c16NewGraffitiProvider builds the real dynamic graffiti provider over the scripted store.
+func c16NewGraffitiProvider(ctx context.Context, sh map[string]string) *dynamicgraffiti.Service {
 	md := &c16Majordomo{files: map[string]string{}, errs: map[string]error{}}
 	loc, resolved := "file:///graffiti/all.txt", "file:///graffiti/all.txt"
 	if sh["loc"] == "templated" {
@@ -191,6 +198,14 @@ func c16RunGraffiti(ctx context.Context, sh map[string]string) c16Res {
 	s, err := dynamicgraffiti.New(ctx, params...)
 	if err != nil {
 		panic("c16 harness: graffiti provider: " + err.Error())
+	}
+	return s
+}
+
+func c16RunGraffiti(ctx context.Context, sh map[string]string) c16Res {
+	s := c16NewGraffitiProvider(ctx, sh)
+	if sh["use"] != "call" {
+		return c16RunGraffitiPropose(ctx, sh, s)
 	}
 	var last []byte
 	for i := 0; i < 8; i++ { // the line is picked at random: several draws
